@@ -7,6 +7,7 @@ import (
 	"encoding/json"
 	"errors"
 	"fmt"
+	"math"
 	"net/http"
 	"strconv"
 	"strings"
@@ -258,8 +259,8 @@ func parseNumber(s string) (any, bool) {
 		return z, true
 	}
 	v, err := strconv.ParseFloat(s, 64)
-	if err == nil {
-		return v, true
+	if err == nil && !math.IsNaN(v) && !math.IsInf(v, 0) {
+		return v, true // N.B. "NaN" and "Inf" parse, but are not JSON numbers
 	}
 	return nil, false
 }
